@@ -120,3 +120,134 @@ Section Qhat.
       apply (qh_exit q r); [unfold qinv; auto|lia].
   Qed.
 End Qhat.
+
+(** * Part B: multiply-subtract, add-back, the `borrow == a0` assertion *)
+Lemma mulsub_fix_spec p hi a0 q b : div_ok p = true ->
+  wf hi -> wf b -> length hi = length b -> 0 <= a0 < B -> 0 <= q < B ->
+  let n := Z.of_nat (length b) in
+  let V := val b in
+  let U := val hi + a0 * B ^ n in
+  0 < V -> U < (q + 1) * V -> q * V <= U + V ->
+  exists hi', mulsub_fix p hi a0 q b = Ret (U / V, hi') /\ wf hi' /\ length hi' = length b /\
+              val hi' = U mod V.
+Proof.
+  intros Hok Whi Wb Hl Ha0 Hq n V U HV HL HU.
+  destruct (div_ok_inv p Hok) as [Has _ _ _ Hbc _ _ _ _ _ _ _ _ _ _ _ _ _].
+  pose proof B_gt1 as HB.
+  pose proof (val_bound b Wb) as Vb. fold V n in Vb.
+  pose proof (val_bound hi Whi) as Vhi. rewrite Hl in Vhi. fold n in Vhi.
+  set (P := B ^ n) in *.
+  assert (HP : 0 < P) by (unfold P, n; apply B_pow_nat).
+  unfold mulsub_fix.
+  destruct (sub_mul_spec hi b q Whi Wb Hl Hq) as (hi1 & br & E & W1 & L1 & Hbr & V1).
+  rewrite E. cbn [bind]. rewrite Hl in V1. fold n P V in V1.
+  pose proof (val_bound hi1 W1) as Vh1. rewrite L1, Hl in Vh1. fold n P in Vh1.
+  rewrite Hbc. cbn [cmp_eval].
+  set (D := U - q * V).
+  assert (HD : D = val hi1 + (a0 - br) * P) by (unfold D, U; lia).
+  assert (HDr : - V <= D < V) by (unfold D; lia).
+  destruct (Z.le_gt_cases 0 D) as [Hpos|Hneg].
+  - (* the estimate was exact *)
+    assert (Ebr : br = a0) by nia.
+    replace (br >? a0) with false by (symmetry; rewrite Z.gtb_ltb; apply Z.ltb_ge; lia).
+    cbn [bind]. replace (br =? a0) with true by (symmetry; apply Z.eqb_eq; auto).
+    cbn [assert_ bind].
+    assert (Eq : U / V = q) by (symmetry; apply Z.div_unique with D; unfold D; lia).
+    assert (Er : U mod V = D) by (symmetry; apply Z.mod_unique with q; unfold D; lia).
+    rewrite Eq. eexists. split; [reflexivity|]. repeat split; auto; try lia.
+  - (* one too large: add back *)
+    assert (Ebr : br = a0 + 1) by nia.
+    replace (br >? a0) with true by (symmetry; rewrite Z.gtb_ltb; apply Z.ltb_lt; lia).
+    assert (Hq1 : 1 <= q) by (unfold D, U in *; nia).
+    replace (1 <=? q) with true by (symmetry; apply Z.leb_le; lia).
+    cbn [assert_ bind].
+    destruct (add2c_spec (dp_as p) hi1 b Has W1 Wb ltac:(lia)) as (hi2 & c & E2 & W2 & L2 & Bc & V2).
+    rewrite E2. cbn [bind]. rewrite L1, Hl in V2. fold n P V in V2.
+    pose proof (val_bound hi2 W2) as Vh2. rewrite L2, L1, Hl in Vh2. fold n P in Vh2.
+    assert (Ec : c = 1) by (destruct Bc as [-> | ->]; [exfalso; nia|reflexivity]).
+    subst c.
+    replace (1 <=? br) with true by (symmetry; apply Z.leb_le; lia).
+    cbn [assert_ bind].
+    replace (br - 1 =? a0) with true by (symmetry; apply Z.eqb_eq; lia).
+    cbn [assert_ bind].
+    assert (Eq : U / V = q - 1) by (symmetry; apply Z.div_unique with (D + V); unfold D; lia).
+    assert (Er : U mod V = D + V) by (symmetry; apply Z.mod_unique with (q - 1); unfold D; lia).
+    rewrite Eq. eexists. split; [reflexivity|]. repeat split; auto; try lia.
+Qed.
+
+(** * Part C: one iteration of the main loop *)
+Lemma val_two x y : val [x; y] = x + B * y.
+Proof. cbn [val]. ring. Qed.
+
+Lemma wf_two_inv l x y : wf (l ++ [x; y]) -> wf l /\ 0 <= x < B /\ 0 <= y < B.
+Proof.
+  intros H. apply wf_app in H as [Hl H]. apply wf_cons in H as [Hx H]. apply wf_cons in H as [Hy _].
+  auto.
+Qed.
+
+Lemma knuth_step_spec p j lo hl a2 a1 a0 bl b1 b0 :
+  div_ok p = true ->
+  let a := lo ++ hl ++ [a2; a1] in
+  let b := bl ++ [b1; b0] in
+  wf a -> wf b -> length lo = j -> length hl = length bl -> 0 <= a0 < B -> B <= 2 * b0 ->
+  let n := Z.of_nat (length b) in
+  let V := val b in
+  let U := val (hl ++ [a2; a1]) + a0 * B ^ n in
+  U < V * B ->
+  exists hl' t, knuth_step p j a a0 b b0 b1 = Ret (U / V, lo ++ hl', t) /\ wf (hl' ++ [t]) /\
+                length (hl' ++ [t]) = length b /\ val (hl' ++ [t]) = U mod V.
+Proof.
+  intros Hok a b Wa Wb Hlo Hhl Ha0 Hnorm n V U HUV.
+  destruct (div_ok_inv p Hok) as [Has Hc0 Hcr Hcq Hbc _ _ _ _ _ _ _ _ _ _ _ _ _].
+  pose proof B_gt1 as HB.
+  apply wf_app in Wa as [Wlo Whi]. pose proof Whi as Whi'.
+  apply wf_two_inv in Whi' as (Whl & Ha2 & Ha1).
+  pose proof Wb as Wb'. apply wf_two_inv in Wb' as (Wbl & Hb1 & Hb0).
+  set (W := B ^ Z.of_nat (length bl)).
+  assert (HW : 1 <= W) by (pose proof (B_pow_nat (length bl)); unfold W; lia).
+  pose proof (val_bound bl Wbl) as Vbl. fold W in Vbl.
+  pose proof (val_bound hl Whl) as Vhl. rewrite Hhl in Vhl. fold W in Vhl.
+  assert (En : B ^ n = W * B * B).
+  { unfold n, b, W. rewrite app_length. cbn [length]. rewrite Nat2Z.inj_add.
+    change (Z.of_nat 2) with 2. rewrite Z.pow_add_r by lia. change (B ^ 2) with (B ^ (1 + 1)).
+    rewrite Z.pow_add_r, Z.pow_1_r by lia. ring. }
+  assert (EV : V = b0 * B * W + b1 * W + val bl).
+  { unfold V, b. rewrite val_app, val_two. fold W. ring. }
+  assert (EU : U = a0 * B * B * W + a1 * B * W + a2 * W + val hl).
+  { unfold U. rewrite val_app, val_two, Hhl, En. fold W. ring. }
+  assert (HUV' : a0 * B * B * W + a1 * B * W + a2 * W + val hl < (b0 * B * W + b1 * W + val bl) * B)
+    by (rewrite <- EU, <- EV; exact HUV).
+  unfold knuth_step.
+  assert (La : length a = (length b + j)%nat).
+  { unfold a, b. rewrite !app_length. cbn [length]. lia. }
+  replace (length a =? length b + j)%nat with true by (symmetry; apply Nat.eqb_eq; exact La).
+  cbn [assert_ bind].
+  assert (Erev : rev a = a1 :: a2 :: rev (lo ++ hl)).
+  { unfold a. rewrite app_assoc, rev_app_distr. reflexivity. }
+  rewrite Erev.
+  destruct (qh_init W b0 b1 (val bl) a0 a1 a2 (val hl) HW Hb0 Hb1 Hnorm Vbl Ha0 Ha1 Ha2 Vhl HUV' p Hc0)
+    as (q & r & Ei & Hinv).
+  rewrite Ei. cbn [bind].
+  destruct (qh_loop W b0 b1 (val bl) a0 a1 a2 (val hl) HW Hb0 Hb1 Hnorm Vbl Ha0 Ha1 Ha2 Vhl HUV' p Hcr Hcq
+              qhat_fuel q r Hinv ltac:(unfold qhat_fuel; lia))
+    as (q' & r' & El & Hq' & HL & HUp).
+  { destruct Hinv as (_ & _ & Hr & _). unfold qhat_fuel. change (Z.of_nat 4) with 4. lia. }
+  rewrite El. cbn [bind].
+  replace (j <=? length a)%nat with true by (symmetry; apply Nat.leb_le; lia).
+  cbn [assert_ bind].
+  assert (Esk : skipn j a = hl ++ [a2; a1]) by (unfold a; apply skipn_app_exact; exact Hlo).
+  assert (Efn : firstn j a = lo) by (unfold a; apply firstn_app_exact; exact Hlo).
+  rewrite Esk, Efn. rewrite <- EU, <- EV in HL, HUp.
+  assert (Lhi : length (hl ++ [a2; a1]) = length b).
+  { unfold b. rewrite !app_length. cbn [length]. lia. }
+  assert (HVpos : 0 < V) by (rewrite EV; nia).
+  destruct (mulsub_fix_spec p (hl ++ [a2; a1]) a0 q' b Hok Whi Wb Lhi Ha0 ltac:(lia) HVpos HL HUp)
+    as (hi' & Em & Whi2 & Lhi2 & Vhi2).
+  fold n V U in Em, Vhi2. rewrite Em. cbn [bind].
+  assert (Hne : hi' <> []).
+  { intros ->. unfold b in Lhi2. rewrite app_length in Lhi2. cbn [length] in Lhi2. lia. }
+  destruct (exists_last Hne) as (hl' & t & Eh). subst hi'.
+  rewrite app_assoc, rev_app_distr. cbn [rev app].
+  rewrite removelast_last.
+  exists hl', t. repeat split; auto.
+Qed.
